@@ -27,6 +27,7 @@ def handleArmRun (args obs : List String) : Verdict := Id.run do
       let exitTok := kv obs "exit"
       let ext := a.kind == FnKind.externC || a.kind == FnKind.externSystem
       let mut cnt := 0
+      let mut cntRef := 0      -- the counter of the one common meaning, run beside the arm's own
       let mut nA := 0          -- assign evaluations so far
       let mut agree := true
       let mut why := ""
@@ -37,7 +38,7 @@ def handleArmRun (args obs : List String) : Verdict := Id.run do
         if stopped then break
         let argv : Int := if ch == 'm' then 7 else 8
         let r := sem a { cond := ch == 'm', cnt := cnt, n := n }
-        let ref := refSem (optsOf a) { cond := ch == 'm', cnt := cnt, n := n }
+        let ref := refSem (optsOf a) { cond := ch == 'm', cnt := cntRef, n := n }
         let isPanic := r.out == Out.panicOver || r.out == Out.panicUnexpected || r.out == Out.unreachable
         match recs[i]? with
         | none =>
@@ -71,10 +72,14 @@ def handleArmRun (args obs : List String) : Verdict := Id.run do
           let refR := ref.trace.contains Eff.evalRet
           let refOut : Int := if refA then 100 + nA else 555
           let refRet : Int := if ref.out == Out.retVal then argv * 1000 + refOut else 0
-          if c != refc then keys := keys ++ ["c08.outcome"]
+          if c != refc then
+            keys := keys ++ ["c08.outcome"]
+            -- C06: admission of a matching call / rejection of a non-matching one under `times`
+            if a.optTimes then keys := keys ++ [if ch == 'm' then "c06.arm-admission" else "c06.arm-rejection"]
           if dA != (if refA then 1 else 0) || outv != refOut then keys := keys ++ ["c08.assign-effect"]
           if dR != (if refR then 1 else 0) || (c == "o" && ret != refRet) then keys := keys ++ ["c08.returns-value"]
           cnt := r.cnt
+          cntRef := ref.cnt
           if hasA then nA := nA + 1
         i := i + 1
       -- exit verdict
@@ -90,7 +95,14 @@ def handleArmRun (args obs : List String) : Verdict := Id.run do
             else "ok"
           if exitTok != some want then
             agree := false; if why == "" then why := "exit:model=" ++ want
-            keys := keys ++ ["c08.exit-verdict"]
+          -- property: the verdict the common meaning's own count of matching calls demands
+          let wantRef := if a.optTimes then
+              (match Counter.verifierDrop true n cntRef false with
+               | Counter.ExitOut.ok => "ok"
+               | Counter.ExitOut.panicMismatch e k => "mismatch:" ++ toString e ++ ":" ++ toString k)
+            else "ok"
+          if exitTok != some wantRef then
+            keys := keys ++ ["c08.exit-verdict"] ++ (if a.optTimes then ["c06.arm-exit-verdict"] else [])
       let ukeys := keys.eraseDups
       return { agree := agree, propOk := ukeys.isEmpty,
                branch := "arm" ++ (if a.optWhen then "+when" else "") ++ (if a.optAssign then "+assign" else "") ++
